@@ -46,10 +46,30 @@ def do_call(X, ins):
     return call_function(X, ins, key, argv, args)
 
 
+def callsite_assertions(X, ins, key, argv, argops):
+    c = X.contract if X.top else None
+    if c is None or not c.get('calls'):
+        return
+    for (ckey, lab, ast, txt) in c['calls']:
+        if ckey != key:
+            continue
+        names = X.resolve_names(X.block, upto_idx=X.cur_idx)
+        env = X.spec_env(names)
+        for i, (a, ao) in enumerate(zip(argv, argops)):
+            if z3.is_expr(a):
+                env['a%d' % i] = SV(a, ao['type'])
+        ev = SpecEval(X.V, X.pkg, env, X.heap, old=X.top_entry_heap())
+        try:
+            X.oblige('callsite', ev.boolean(ast), ins.get('pos', ''), label='%s.%s' % (key, lab or '0'), text=txt)
+        except SpecError as e:
+            raise OutOfSubset('call clause for %s in %s: %s' % (key, X.fnkey, e))
+
+
 def call_function(X, ins, key, argv, argops):
     V = X.V
     w = X.w
     prog = w.prog
+    callsite_assertions(X, ins, key, argv, argops)
     c = V.contracts['funcs'].get(key)
     if c is not None and 'inline' not in c['flags']:
         return contract_call(X, ins, key, c, argv)
@@ -87,7 +107,65 @@ def call_function(X, ins, key, argv, argops):
             X.reach = nr
         setres(X, ins, res)
         return
+    if generic_external_ok(key):
+        return generic_external(X, ins, key)
     raise OutOfSubset('call to %s: no contract, no body, no trusted spec' % key)
+
+
+# packages whose functions never write to gotree's data structures (they may read slices/strings passed to them)
+GENERIC_PKGS = ('fmt', 'os', 'strings', 'strconv', 'errors', 'log', 'math', 'path/filepath', 'time', 'io', 'bufio', 'bytes',
+                'regexp', 'unicode', 'unicode/utf8', 'compress/gzip', 'runtime', 'encoding/csv', 'io/ioutil', 'net/http', 'net/url',
+                'github.com/fredericlemoine/gostats', 'github.com/evolbioinfo/goalign/align',
+                'github.com/evolbioinfo/goalign/io/fasta', 'github.com/evolbioinfo/goalign/io/phylip', 'math/rand')
+GENERIC_DENY = ('os.Exit', 'runtime.Goexit', 'log.Fatal', 'log.Fatalf', 'log.Fatalln', 'log.Panic', 'log.Panicf')
+
+
+def key_pkg(key):
+    k = key
+    if k.startswith('iface:'):
+        k = k[len('iface:'):]
+        return k.rsplit('.', 2)[0] if k.count('.') >= 2 else k.rsplit('.', 1)[0]
+    if k.startswith('(*') or k.startswith('('):
+        inner = k[1:k.index(')')].lstrip('*')
+        return inner.rsplit('.', 1)[0]
+    return k.rsplit('.', 1)[0]
+
+
+def generic_external_ok(key):
+    if key in GENERIC_DENY:
+        return False
+    return key_pkg(key) in GENERIC_PKGS
+
+
+def generic_external(X, ins, key):
+    """external function without a specific model: returns arbitrary well-typed values, writes nothing in gotree's heap"""
+    from .externals import USED
+    USED.add('generic:' + key)
+    w = X.w
+    tk = ins.get('type')
+    res = []
+    if tk:
+        e = w.prog.types.get(tk)
+        tys = e['elems'] if e is not None and e['kind'] == 'tuple' else ([tk] if tk != '()' else [])
+        for t in tys:
+            kind = w.prog.kind(t)
+            if kind == 'slice':
+                a = X.alloc_id('arr')
+                n = w.fresh('extlen', I)
+                X.hyp(n >= 0)
+                el = w.prog.under(t)[1]['elem']
+                hk = ('el', el)
+                X.heap.set(hk, z3.Store(X.heap.get(hk), a, w.fresh('extarr', z3.ArraySort(I, w.sort(el)))))
+                res.append(w.Slice.mk_slice(a, 0, n, n))
+                continue
+            if kind == 'func':
+                raise OutOfSubset('external returning a function: ' + key)
+            v = w.fresh('ext', w.sort(t))
+            for f in well_typed(X.V, X.heap, v, t):
+                X.hyp(f)
+            res.append(v)
+    # method call on a nil foreign pointer receiver
+    setres(X, ins, res)
 
 
 def dynamic_call(X, ins):
@@ -109,6 +187,8 @@ def invoke_call(X, ins):
         if res is not None:
             setres(X, ins, res)
         return
+    if generic_external_ok(key):
+        return generic_external(X, ins, key)
     raise OutOfSubset('interface method call %s without contract' % key)
 
 
@@ -187,7 +267,7 @@ def assign_targets(X, ast, ev):
             for key in list(X.V.h0.keys()) + list(ev.heap.d.keys()):
                 if key[0] == 'ghost' and key[1] == nm:
                     return [(key, None)]
-            raise SpecError('assigns: unknown ghost ' + nm)
+            return [(('ghost', nm, z3.IntSort()), None)]
         if name == 'allfields':
             ty = resolve_type(w, args[0][1], ev.pkg)
             return [(('f', ty, f['name']), None) for f in w.struct_fields(ty)]
@@ -222,6 +302,9 @@ def alloc_spaces(X, names, pkg):
             out.append((('alloc', 'cell:' + ty), [('cell', ty)]))
         elif n == 'iface':
             out.append((('alloc', 'iface'), []))
+        elif n == 'chan':
+            from .chans import gk_arr
+            out.append((('alloc', 'chan'), [gk_arr('sent_on'), gk_arr('closed_on'), gk_arr('recv_on')]))
         else:
             ty = resolve_type(w, n, pkg)
             hk = [('f', ty, f['name']) for f in w.struct_fields(ty)] if w.sort(ty) != w.Opaque else []
@@ -261,6 +344,8 @@ def bind_args(X, params, argv):
 def contract_call(X, ins, key, c, argv, iface_sig=None):
     V = X.V
     w = X.w
+    V.used_contracts = getattr(V, 'used_contracts', set())
+    V.used_contracts.add(key)
     params, results, pkg = callee_signature(X, key, iface_sig)
     if iface_sig is not None:
         params = [('self', ins['iface'])] + params[1:]
